@@ -76,6 +76,7 @@ GatesP3q == { G("H", <<0>>, e0, e0), G("T", <<2>>, e0, e0), G("CX", <<0, 2>>, e0
 \* the canonical-form record self-tests (two live objects / a query that works on a copy of the MPS)
 GatesS3 == { G("CX", <<0, 2>>, e0, e0), G("ISWAP", <<1, 2>>, e0, e0) }
 QueriesS3 == { QExp("P01", <<2>>), [kind |-> "expec", op |-> "P01", where |-> <<0>>, viacopy |-> TRUE] }
-QueriesP3 == { QDense(FALSE), QAmp(<<1, 0, 1>>), QExp("P01", <<2>>), QExp("E0110", <<2, 0>>) }
+QueriesP3 == { QDense(FALSE), QAmp(<<1, 0, 1>>), QExp("P01", <<2>>), QExp("E0110", <<2, 0>>),
+               [kind |-> "expec", op |-> "P01", where |-> <<0>>, viacopy |-> TRUE] }
 
 =============================================================================
